@@ -130,6 +130,8 @@ func orAbsent(fs ...func([]string) bool) func([]string) bool {
 
 func C16(c *Ctx) {
 	r := c.R
+	r.Rule("C16.handleKept", "a DHCP lease record that replaces an existing one keeps the circuit-id under which the secondary index and the fast-path entries were written; otherwise the releases of every termination path are skipped as handle-absent and the entries stay for ever", 1)
+	defer leaseHandleKept(c, "C16.handleKept")
 	r.Explain = "For every modelled termination path, a finite-domain disjunctive dataflow over its SSA (same-package callees summarised; handle guards — nil/emptiness tests of the resource's own handle, capability calls — recorded as atoms, all other conditions explored both ways) yields the set of exit configurations; in every configuration in which the session was claimed (removed from its primary table) each resource establishment may have acquired must have been released or its handle must be provably absent on that path.  Plus: no release without a claim, and the claim's lookup and removal happen in one critical section.  Concurrent pairs beyond claim atomicity and idempotence of the callee releases are not decided."
 	r.Rule("C16.release", "on every path of a termination function that claims the session, each resource the session may hold is released, or the path's guards show that resource's handle is absent", 25)
 	r.Rule("C16.claimFirst", "a termination function releases resources only on paths that claimed the session (so that a second termination of the same session releases nothing)", 6)
